@@ -681,48 +681,65 @@ def settle(ck, s, drv, reqs):
                 s.compare((cid, "parse"), "same", "same")
         else:
             c, img, csf_off, app16, md_csf, md_data = real
-            if not ans.startswith("ok:"):
+            if ans.startswith("refused:"):
                 s.expect(False, cid, "the independent ROM-side reader (Spec.HabRom.habCheck) refuses the image SPSDK built", ans[:300])
                 continue
-            f = dict(kv.split("=", 1) for kv in ans[3:].split(";"))
+            try:
+                f = dict(kv.split("=", 1) for kv in ans[3:].split(";")) if ans.startswith("ok:") else None
+                fields = None if f is None else (f["msgcsf"], f["msgdata"], f["plain"])
+            except (ValueError, KeyError):
+                fields = None
+            if fields is None:      # not an answer of habCheck at all (driver died / fault injected): a broken correspondence, not a finding
+                s.compare((cid, "check"), "ok:… | refused:…", ans[:80], "the ROM-side reader gave no verdict")
+                continue
             if c["mode"] != "plain":
-                s.expect(f["msgcsf"] == (md_csf or b"").hex() and f["msgdata"] == (md_data or b"").hex(), cid,
+                s.expect(fields[0] == (md_csf or b"").hex() and fields[1] == (md_data or b"").hex(), cid,
                          "digests of the messages the ROM-side reader derives differ from the messageDigest attributes of the CMS signatures",
-                         (f["msgcsf"], f["msgdata"]), ((md_csf or b"").hex(), (md_data or b"").hex()))
+                         (fields[0], fields[1]), ((md_csf or b"").hex(), (md_data or b"").hex()))
             if c["mode"] == "enc":
-                s.expect(f["plain"] == hashlib.sha256(app16).hexdigest(), cid, "ROM-side AES-CCM decryption does not restore the application", f["plain"])
+                s.expect(fields[2] == hashlib.sha256(app16).hexdigest(), cid, "ROM-side AES-CCM decryption does not restore the application", fields[2])
 
 
 # ====================================================================================================== run
 def cross_check_generated(ck):
-    """generated tables vs live objects (a mismatch is an extractor problem: exit 2)"""
+    """generated tables vs live objects.  A mismatch means the extractor no longer reads the current source (e.g. after a respelling it does not
+    understand): that is a broken correspondence (reported, exit 1 `no-failing-input-found` unless a failing input is found elsewhere), never a
+    harness crash.  The device list the streams iterate comes from the LIVE database, so no stream depends on the generated table."""
     from spsdk.image.commands import CmdTag, EnumCertFormat, EnumEngine
     from spsdk.image.hab.segments import CsfHabSegment, IvtHabSegment, XmcdHabSegment
     from spsdk.image.header import SegTag
     from spsdk.image.images import BootImgRT
     from spsdk.image.segments import SegBDT, SegIVT2
     from spsdk.utils.database import DatabaseManager, get_db, get_families
-    m = ck.generated_meta.get("HabConsts", {})
+    m = ck.generated_meta.get("HabConsts", {}) or {}
+    sg = ck.stream("generated_tables", "tables of Generated/HabConsts.lean against the live objects: HAB device rows, SegTag / CmdTag / EnumCertFormat / "
+                   "EnumEngine, sizes and offsets. non-trivial = every table / constant")
     live = []
     for fam in get_families(DatabaseManager.HAB):
         db = get_db(fam)
         for dev, v in db.get_dict(DatabaseManager.HAB, "mem_types").items():
             live.append([fam, dev, db.get_int(DatabaseManager.BOOTABLE_IMAGE, ["mem_types", dev, "segments", "hab_container"]), v["initial_load_size"]])
-    if sorted(live) != sorted(m.get("devices", [])):
-        raise Infra("generated HAB device table differs from the live database")
+    live.sort()
+    gen_rows = m.get("devices", [])
+    gen_rows = sorted(gen_rows) if isinstance(gen_rows, list) else gen_rows
+    sg.note("devices")
+    sg.compare("devices", live, gen_rows, "generated HAB device table differs from the live database")
     for name, enum in (("segTags", SegTag), ("cmdTags", CmdTag), ("certFormats", EnumCertFormat), ("engines", EnumEngine)):
         livev = {k: v.tag for k, v in enum.__members__.items()}
-        if livev != m.get(name):
-            raise Infra(f"generated table {name} differs from the live enum")
+        sg.note(name)
+        sg.compare(name, livev, m.get(name), f"generated table {name} differs from the live enum")
     livec = {"ivtVersion": IvtHabSegment.IVT_VERSION, "xmcdSegOffset": XmcdHabSegment.OFFSET, "csfSize": CsfHabSegment.CSF_SIZE,
              "keyblobSize": CsfHabSegment.KEYBLOB_SIZE, "bdtSize": BootImgRT.BDT_SIZE, "ivt2Size": SegIVT2.SIZE, "bdtStructSize": SegBDT.SIZE}
     for k, v in livec.items():
-        if m.get(k) != v:
-            raise Infra(f"generated constant {k}={m.get(k)} differs from the live value {v}")
-    return [tuple(r) for r in m["devices"]]
+        sg.note(k)
+        sg.compare(k, v, m.get(k), f"generated constant {k} differs from the live value")
+    return [tuple(r) for r in live]
 
 
 def run(ck):
+    # driver ops that evaluate Spec-only definitions (Spec/HabRom.lean imports Model/Misc byte helpers and Crypto only, never Model/Hab* or
+    # Generated/*): their answers may feed s.expect(); every other op (build, parse, cmd, xmcd, nonce) is model / generated code -> s.compare() only
+    ck.spec_ops = {"check"}
     ck.lean_obligations(generated=GENERATED)
     drv = ck.driver()
     rng = ck.rng
